@@ -194,7 +194,7 @@ def get_time_window(
     buffer_max_timestamp = (
         data_holder.max_timestamp - time_buffer_in_nanoseconds
     )
-    if buffer_min_timestamp >= buffer_max_timestamp:
+    if buffer_min_timestamp > buffer_max_timestamp:
         raise ValueError(
             "The time buffer is too large for the ingested data. "
             "Please reduce the time buffer."
